@@ -217,7 +217,9 @@ C07_NoOverwrite ==
 Matching(a, b) ==
   LET lo == Max(a.base, b.base) + 1
       hi == Min(LastIdx(a), LastIdx(b)) IN
-  \A i \in lo..hi : At(a, i).t = At(b, i).t => \A j \in lo..i : At(a, j) = At(b, j)
+  \* linear form, equivalent by induction on i: equal terms at i imply equal entries at i and
+  \* equal terms at i - 1
+  \A i \in lo..hi : At(a, i).t = At(b, i).t => At(a, i) = At(b, i) /\ (i > lo => At(a, i - 1).t = At(b, i - 1).t)
 
 C06_LogMatching ==
   IF ~IsLogEv \/ Has("err") THEN {} ELSE
@@ -633,6 +635,7 @@ NextFsmc ==
   ELSE fsmc
 
 CfgIdxUpTo(k) == {j \in DOMAIN committed : committed[j].k = 2 /\ j <= k}
+OwnCfgIdxUpTo(n, k) == LET lg == Log(n) IN {j \in (lg.base + 1)..Min(k, LastIdx(lg)) : At(lg, j).k = 2}
 
 \* Signature of known finding S7: an installation publishes a file that was created for one
 \* snapshot label while the request that completes it carries another (the handler appends a
@@ -650,8 +653,12 @@ C10_Snapshot ==
        THEN {V("C10", "SnapshotNotExact", <<Ev.node, Ev.ctx, Ev.index, Ev.content, {j \in DOMAIN applied : j <= Ev.index}>>)} ELSE {})
     \cup
     \* carries the configuration committed at the label
-    (IF CfgIdxUpTo(Ev.index) # {} /\ Ev.cfg.i # (CHOOSE j \in CfgIdxUpTo(Ev.index) : \A m \in CfgIdxUpTo(Ev.index) : m <= j)
-       THEN {V("C10", "SnapshotWrongConfiguration", <<Ev.node, Ev.index, Ev.cfg.i, CfgIdxUpTo(Ev.index)>>)} ELSE {})
+    \* (judged on the snapshotting node's own log: what it applied up to the label is what is
+    \* committed up to the label; the `committed' map lags by up to one quiescence period)
+    (IF OwnSnapshot /\ OwnCfgIdxUpTo(Ev.node, Ev.index) # {}
+        /\ Ev.cfg.i # (CHOOSE j \in OwnCfgIdxUpTo(Ev.node, Ev.index) : \A m \in OwnCfgIdxUpTo(Ev.node, Ev.index) : m <= j)
+       THEN {V("C10", "SnapshotWrongConfiguration", <<Ev.node, Ev.index, Ev.cfg.i, OwnCfgIdxUpTo(Ev.node, Ev.index)>>),
+             V("C09", "SnapshotCarriesUncommittedConfiguration", <<Ev.node, Ev.index, Ev.cfg.i, OwnCfgIdxUpTo(Ev.node, Ev.index)>>)} ELSE {})
 
 C10_Fsm ==
   (IF Is("restore") /\ (~Ev.ok \/ ~ExactUpTo(Ev.content, LastOf(Ev.content)))
@@ -673,6 +680,14 @@ C11_Log ==
   (IF Is("log_discard") /\ ~Has("err")
       /\ \E i \in DOMAIN committed : i > Ev.index /\ HasIdx(Log(Ev.node), i) /\ At(Log(Ev.node), i) = committed[i]
      THEN {V("C11", "DiscardedCommittedEntry", <<Ev.node, Ev.index>>)} ELSE {})
+  \cup
+  \* the emptied log starts at the snapshot's boundary: same last index / last term as the full log,
+  \* so that the node answers vote and replication requests as a node holding the full log would
+  (IF Is("log_discard") /\ ~Has("err") /\ Ev.index \in DOMAIN committed /\ committed[Ev.index].t # Ev.term
+     THEN {V("C11", "DiscardBoundaryTermWrong", <<Ev.node, Ev.index, Ev.term, committed[Ev.index].t>>)} ELSE {})
+  \cup
+  (IF Is("log_discard") /\ ~Has("err") /\ Has("lastt") /\ Ev.index \in DOMAIN committed /\ Ev.lastt # committed[Ev.index].t
+     THEN {V("C11", "LastTermAfterDiscardWrong", <<Ev.node, Ev.index, Ev.lastt, committed[Ev.index].t>>)} ELSE {})
   \cup
   \* applied and commit index never move backwards within an incarnation
   (IF Is("status") /\ Ev.node \in DOMAIN stat /\ stat[Ev.node].inc = Ev.inc
